@@ -172,6 +172,16 @@ func (e *skipConcEngine) step(toks []string) string {
 				return "bad-op"
 			}
 			f = func() string { it.Next(); return cur(name, it) }
+		case "it_interval":
+			if len(toks) != 5 || e.iters[ti][toks[3]] == nil {
+				return "bad-op"
+			}
+			n, ok := atoi(toks[4])
+			if !ok || n < 1 {
+				return "bad-op"
+			}
+			it := e.iters[ti][toks[3]]
+			f = func() string { it.SetRefreshInterval(n); return "" }
 		case "it_close":
 			name := toks[3]
 			it := e.iters[ti][name]
